@@ -41,7 +41,7 @@ func cfgQuiet(path string) gameboy.Config {
 }
 
 func run(c *rig.Ctx) {
-	c.Require("twin_frames", "progress_cases", "timer_irq_cases", "stop_close_cases", "stop_cancel_in_poll_cases", "stop_cancel_other_goroutine_cases")
+	c.Require("twin_frames", "progress_cases", "timer_irq_cases", "stop_close_cases", "stop_cancel_in_poll_cases", "stop_cancel_other_goroutine_cases", "stop_cases_lcd_off")
 
 	// A1: twin differential
 	c.Part("twin", c.N(60, 1200), func(i int64, r *rig.Rng) {
@@ -197,6 +197,12 @@ func run(c *rig.Ctx) {
 	// B: stopping
 	c.Part("stop", c.N(36, 400), func(i int64, r *rig.Rng) {
 		p := prog.Sound(r)
+		lcdOff := (i/3)%2 == 1
+		if lcdOff {
+			// the guest has switched the LCD off: stopping must not depend on the LCD
+			p = prog.LCDOffLoop()
+			c.Count("stop_cases_lcd_off", 1)
+		}
 		path := emu.TempROM(p.ROM, "c26s")
 		defer os.Remove(path)
 		mode := int(i % 3)
@@ -230,8 +236,9 @@ func run(c *rig.Ctx) {
 		glfw.OnPoll = func(w *glfw.Window, k int64) {
 			switch mode {
 			case 0:
-				if int(k) == n {
+				if int(k) == n && !lcdOff {
 					w.SetShouldClose(true)
+					atomic.StoreInt32(&cancelled, 1)
 				}
 			case 1:
 				if int(k) == n {
@@ -249,7 +256,7 @@ func run(c *rig.Ctx) {
 			}
 			// watchdog in logical time: a Run that ignores the request is stopped by the
 			// display closing a few frames later (or, failing that, by a panic)
-			if atomic.LoadInt32(&cancelled) == 1 || (mode == 0 && int(k) >= n) {
+			if atomic.LoadInt32(&cancelled) == 1 {
 				extra++
 				if extra > 5 {
 					w.SetShouldClose(true)
@@ -262,15 +269,28 @@ func run(c *rig.Ctx) {
 				panic("C26 watchdog: runaway")
 			}
 		}
-		gb := gameboy.New(gameboy.Config{RomFilename: path, DisableAudioOutput: !audio})
+		// Logical-time watchdog that does not depend on the display being polled: the programs
+		// write a serial byte at least every ~1100 machine cycles; if far more bytes arrive after
+		// the stop request than 40 frames can produce, Run is not going to stop.
+		perFrame := int64(700)
+		if lcdOff {
+			perFrame = 20
+		}
+		wd := &byteWatchdog{requested: &cancelled, closeByByte: mode == 0 && lcdOff, win: glfw.XCurrent, polls: &glfw.PollCalls, n: int64(n), perFrame: perFrame}
+		gb := gameboy.New(gameboy.Config{RomFilename: path, DisableAudioOutput: !audio, SerialWriter: wd})
 		var runPanic any
 		func() {
 			defer func() { runPanic = recover() }()
 			gb.Run(ctx)
 		}()
+		// release the cancelling goroutine if its cue never came (Run ended some other way)
+		select {
+		case kick <- struct{}{}:
+		default:
+		}
 		wg.Wait()
 		polls := atomic.LoadInt64(&glfw.PollCalls)
-		descr := fmt.Sprintf("mode %d (0 close request, 1 cancel inside poll, 2 cancel from another goroutine after %d yields), request at frame %d, audio=%v", mode, yields, n, audio)
+		descr := fmt.Sprintf("mode %d (0 close request, 1 cancel inside poll, 2 cancel from another goroutine after %d yields), request at frame %d, audio=%v, guest switched the LCD off=%v", mode, yields, n, audio, lcdOff)
 		if runPanic != nil {
 			cls := "run-panics-while-stopping"
 			if s, ok := runPanic.(string); ok && len(s) > 12 && s[:12] == "C26 watchdog" {
@@ -281,7 +301,11 @@ func run(c *rig.Ctx) {
 		}
 		switch mode {
 		case 0:
-			if polls != int64(n) {
+			if lcdOff {
+				if polls > wd.pollsAtReq+2 {
+					c.Violate("run-continues-after-close-request", fmt.Sprintf("%s: the close request was made when %d frames had been rendered, Run went on to %d", descr, wd.pollsAtReq, polls), nil)
+				}
+			} else if polls != int64(n) {
 				c.Violate("run-continues-after-close-request", fmt.Sprintf("%s: %d frames were rendered, the display asked to close during frame %d", descr, polls, n), nil)
 			}
 			c.Count("stop_close_cases", 1)
@@ -309,6 +333,37 @@ func run(c *rig.Ctx) {
 		}
 		c.Case(rig.Hash(uint64(i), uint64(mode), uint64(n), uint64(yields)))
 	})
+}
+
+// byteWatchdog counts serial bytes as a logical clock (it runs on the emulator's goroutine).
+type byteWatchdog struct {
+	requested   *int32
+	closeByByte bool // make the close request here (after about n frames) instead of in a poll callback
+	win         func() *glfw.Window
+	polls       *int64
+	n           int64
+	perFrame    int64 // upper bound on bytes per frame for this program
+	total       int64
+	since       int64
+	pollsAtReq  int64
+}
+
+func (w *byteWatchdog) Write(p []byte) (int, error) {
+	w.total += int64(len(p))
+	if w.closeByByte && atomic.LoadInt32(w.requested) == 0 && w.total >= w.n*w.perFrame/2 {
+		if win := w.win(); win != nil {
+			win.SetShouldClose(true)
+			w.pollsAtReq = atomic.LoadInt64(w.polls)
+			atomic.StoreInt32(w.requested, 1)
+		}
+	}
+	if atomic.LoadInt32(w.requested) == 1 {
+		w.since += int64(len(p))
+	}
+	if w.since > 40*w.perFrame || w.total > 600*w.perFrame {
+		panic("C26 watchdog: Run keeps executing frames long after the stop request (serial-byte clock)")
+	}
+	return len(p), nil
 }
 
 func main() {
